@@ -1,11 +1,170 @@
 package main
 
+// C16: the schedule query. Two access traces (one per logical thread) over a shared heap; integer timestamps;
+// program order; mutual exclusion of critical sections on the same mutex; a data race is a pair of conflicting
+// accesses (same location, at least one write, not both atomic) that can be adjacent in a feasible interleaving.
+
 import (
+	"fmt"
+	"strings"
+
 	"golang.org/x/tools/go/ssa"
 	"golang.org/x/tools/go/ssa/ssautil"
 )
 
 func ssautilAllFunctions(p *ssa.Program) map[*ssa.Function]bool { return ssautil.AllFunctions(p) }
 
-// scheduleQueries is defined in sched_query.go once C16 is built.
+// kept for the check driver's signature (races are reported as ordinary violations now)
 func scheduleQueries(traces []*ThreadTrace, cfg *Config) (int, []string) { return 0, nil }
+
+type parRun struct {
+	A, B   *ThreadTrace
+	shared map[*Object]bool
+}
+
+func conflicting(a, b AccessEvent) bool {
+	if a.Loc != b.Loc {
+		return false
+	}
+	isAcc := func(k string) bool { return k == "read" || k == "write" || k == "atomic" }
+	if !isAcc(a.Kind) || !isAcc(b.Kind) {
+		return false
+	}
+	if a.Kind == "read" && b.Kind == "read" {
+		return false
+	}
+	if a.Kind == "atomic" && b.Kind == "atomic" {
+		return false
+	}
+	return true
+}
+
+// raceQuery returns ("", n) if no schedule exhibits a race, or a description of one.
+func (in *Interp) raceQuery(pr parRun) (string, bool) {
+	filter := func(t *ThreadTrace) []AccessEvent {
+		var out []AccessEvent
+		for _, e := range t.Events {
+			if e.Kind == "acquire" || e.Kind == "release" || pr.shared[e.obj] {
+				out = append(out, e)
+			}
+		}
+		return out
+	}
+	A, B := filter(pr.A), filter(pr.B)
+	var pairs [][2]int
+	for i, a := range A {
+		for j, b := range B {
+			if conflicting(a, b) {
+				pairs = append(pairs, [2]int{i, j})
+			}
+		}
+	}
+	in.w.stats.Obligations++
+	if len(pairs) == 0 {
+		in.w.stats.Discharged++
+		return "", false
+	}
+	var sb strings.Builder
+	sb.WriteString("(push 1)\n")
+	name := func(th string, i int) string { return fmt.Sprintf("t%s%d", th, i) }
+	var all []string
+	for i := range A {
+		fmt.Fprintf(&sb, "(declare-const %s Int)\n", name("a", i))
+		all = append(all, name("a", i))
+		if i > 0 {
+			fmt.Fprintf(&sb, "(assert (< %s %s))\n", name("a", i-1), name("a", i))
+		}
+	}
+	for j := range B {
+		fmt.Fprintf(&sb, "(declare-const %s Int)\n", name("b", j))
+		all = append(all, name("b", j))
+		if j > 0 {
+			fmt.Fprintf(&sb, "(assert (< %s %s))\n", name("b", j-1), name("b", j))
+		}
+	}
+	if len(all) > 1 {
+		fmt.Fprintf(&sb, "(assert (distinct %s))\n", strings.Join(all, " "))
+	}
+	// critical sections
+	type cs struct{ acq, rel int }
+	sections := func(ev []AccessEvent) map[string][]cs {
+		m := map[string][]cs{}
+		open := map[string]int{}
+		for i, e := range ev {
+			switch e.Kind {
+			case "acquire":
+				open[e.Loc] = i
+			case "release":
+				if a, ok := open[e.Loc]; ok {
+					m[e.Loc] = append(m[e.Loc], cs{a, i})
+					delete(open, e.Loc)
+				}
+			}
+		}
+		for loc, a := range open { // still held at the end of the trace
+			m[loc] = append(m[loc], cs{a, len(ev) - 1})
+		}
+		return m
+	}
+	sa, sbb := sections(A), sections(B)
+	for mu, as := range sa {
+		for _, x := range as {
+			for _, y := range sbb[mu] {
+				fmt.Fprintf(&sb, "(assert (or (< %s %s) (< %s %s)))\n", name("a", x.rel), name("b", y.acq), name("b", y.rel), name("a", x.acq))
+			}
+		}
+	}
+	sb.WriteString("(assert (or")
+	for _, p := range pairs {
+		fmt.Fprintf(&sb, " (= (- %s %s) 1) (= (- %s %s) 1)", name("a", p[0]), name("b", p[1]), name("b", p[1]), name("a", p[0]))
+	}
+	sb.WriteString("))\n(check-sat)")
+	out, err := in.w.solver.roundTrip(sb.String())
+	res := "error"
+	if err == nil {
+		res = classify(out)
+	}
+	desc := ""
+	if res == "sat" {
+		// find which pair is adjacent
+		var q strings.Builder
+		q.WriteString("(get-value (")
+		for _, n := range all {
+			q.WriteString(n + " ")
+		}
+		q.WriteString("))")
+		vout, _ := in.w.solver.roundTrip(q.String())
+		vals := map[string]int64{}
+		if es := parseSexp(vout); len(es) > 0 && es[0].isList() {
+			for _, pr := range es[0].list {
+				if pr.isList() && len(pr.list) == 2 {
+					if r, ok := sexpRat(pr.list[1]); ok && r.IsInt() {
+						vals[pr.list[0].atom] = r.Num().Int64()
+					}
+				}
+			}
+		}
+		for _, p := range pairs {
+			d := vals[name("a", p[0])] - vals[name("b", p[1])]
+			if d == 1 || d == -1 {
+				a, b := A[p[0]], B[p[1]]
+				desc = fmt.Sprintf("data race on %s: thread %s %s at %s / thread %s %s at %s", a.Loc, pr.A.Name, a.Kind, a.Site, pr.B.Name, b.Kind, b.Site)
+				break
+			}
+		}
+		if desc == "" {
+			desc = "data race (schedule found)"
+		}
+	}
+	in.w.solver.roundTrip("(pop 1)")
+	in.w.solver.Stats.Queries++
+	switch res {
+	case "unsat":
+		in.w.stats.Discharged++
+		return "", false
+	case "sat":
+		return desc, true
+	}
+	in.w.stats.Inconclusive = append(in.w.stats.Inconclusive, "schedule query: "+trunc(res, 100))
+	return "", false
+}
